@@ -149,6 +149,25 @@ def parseDispEv (s : String) : Option DispEv :=
     | some k => some (.cancel k)
     | none => (natAfter "r" s).map .reply
 
+def parseConnEv (s : String) : Option ConnEv :=
+  if s == "L" then some .leave
+  else if s.startsWith "f" then
+    match (s.drop 1).toString.splitOn "." with
+    | [x, a] => do
+      let x ← x.toNat?
+      let a ← a.toNat?
+      pure (.dial x a (a != 1))       -- 1 is the node's own id: the handshake fails
+    | _ => none
+  else match natAfter "n" s with
+    | some x => some (.dial x x false)
+    | none => match natAfter "h" s with
+      | some x => some (.hangup x)
+      | none => match natAfter "o" s with
+        | some x => some (.hangupOld x)
+        | none => match natAfter "q" s with
+          | some x => some (.req x)
+          | none => (natAfter "x" s).map .disc
+
 def parseSerfEv (s : String) : Option SerfEv :=
   if s == "u" then some .other
   else match s.splitOn ":" with
@@ -243,6 +262,21 @@ def step (cfg : Cfg) (line : String) : String :=
       | none, some (.err k) => "err " ++ k
       | none, some _ => "ok"
       | none, none => bad
+    | none => bad
+  | ["conns", evs] =>
+    match (parts ";" evs).mapM parseConnEv with
+    | some es =>
+      let outs := (connRun cfg {} es).2
+      match outs.find? Out.isPanic with
+      | some p => p.show
+      | none =>
+        -- result of the last request to a real member, number of connections the scripted endpoint saw
+        let lastReq := ((es.zip outs).filter (fun p => match p.1 with | .req _ => true | _ => false)).getLast?
+        let r := match lastReq with
+          | none => "-"
+          | some (_, .err k) => "err " ++ k
+          | some _ => "ok"
+        s!"{r} dials={connDials es outs}"
     | none => bad
   | ["mdisp", m] =>
     if m == "nil" then (messageDispatch cfg .nilMsg).show
